@@ -141,3 +141,25 @@ def run_part(ctx):
         ctx.broken.append("correspondence fixup: %d of %d cases differ between the extracted ElemComment/ElemPI loops and the library, e.g. %r"
                           % (n_diff, len(meta), first_diff))
     ctx.notes["xslt_guard_cases"] = len(meta)
+
+
+def replay(ctx, path):
+    """replay file written by run_part: re-run the stylesheet and show what the property demands"""
+    txt = open(path).read()
+    kind = "c" if "xsl:comment" in txt.split("\n")[1] else "p"
+    sh = txt.split("stylesheet:\n", 1)[1].split("\nsource:", 1)[0]
+    core.build_lib("plain")
+    r = xsltrun.run([{"id": "r", "sheet": sh, "source": "<d/>"}])["r"]
+    print("library:", r[0], (r[1][:300] if r[0] == "ok" else r[1:3]))
+    if r[0] != "ok":
+        print("FAILS the property: the transformation did not succeed")
+        return 1
+    try:
+        cs, ps = parse_back(r[1])
+    except xml.parsers.expat.ExpatError as e:
+        print("FAILS the property: the output is not well-formed XML (%s)" % e)
+        return 1
+    data = (cs[0] if cs else None) if kind == "c" else (ps[0][1] if ps else None)
+    bad = data is None or (("--" in data or data.endswith("-")) if kind == "c" else "?>" in data)
+    print("read back:", repr(data), "-> FAILS the property" if bad else "-> as the property demands")
+    return 1 if bad else 0
